@@ -16,7 +16,7 @@ Ev == TraceLog[l]
 IsEvent(e) == l <= Len(TraceLog) /\ Ev.ev = e /\ l' = l + 1
 
 Dummy == [id |-> "-", nf |-> 0, off |-> <<>>, span |-> <<>>, pre |-> <<>>, prf |-> <<>>, prio |-> <<>>, lm |-> "none", loff |-> 0,
-          size |-> 1, cs |-> 1, cfg |-> 0, thr |-> 0, f0 |-> <<>>, rd |-> <<>>, np |-> 0, nw |-> 0, nb |-> 0, haslst |-> FALSE]
+          size |-> 1, cs |-> 1, cfg |-> 0, thr |-> 0, f0 |-> <<>>, rd |-> <<>>, ro |-> 2, np |-> 0, nw |-> 0, nb |-> 0, haslst |-> FALSE]
 
 ObsFetched == ToSet(Ev.obs.fetched)
 Got == ObsFetched \ fetched
